@@ -1,6 +1,7 @@
 package rules
 
 import (
+	"go/constant"
 	"go/token"
 	"go/types"
 	"reflect"
@@ -613,6 +614,25 @@ func honourPoints(c *km.Ctx, s *km.Sem, fn *ssa.Function, call *ssa.Call) []hono
 			}
 			if km.InstrDominates(call, rc.Ret) || call.Block().Dominates(rc.Ret.Block()) {
 				out = append(out, honourPoint{rc.Ret, "success return"})
+				continue
+			}
+			// a success return that no verification of this function dominates (an answer remembered from an
+			// earlier call, a shortcut): it is judged like the others and fails for want of the verified claims
+			verified := false
+			for _, ci := range km.CallsIn(fn) {
+				if km.CalleeFull(ci.Common()) == RS+"JWTClaims" && (km.InstrDominates(ci, rc.Ret) || ci.Block().Dominates(rc.Ret.Block())) {
+					verified = true
+				}
+			}
+			// (a return that hands back nothing - "not found": zero values and a nil error - honours nothing)
+			empty := true
+			for _, rv := range rc.Results[:len(rc.Results)-1] {
+				if !isZeroValue(rv) {
+					empty = false
+				}
+			}
+			if !verified && !empty {
+				out = append(out, honourPoint{rc.Ret, "success return without verification"})
 			}
 		}
 		return out
@@ -821,6 +841,63 @@ func checkVerifierAlgos(c *km.Ctx, s *km.Sem) {
 			r.AnchorLost("R-C04-1", "algorithm set construction in getJoseKeymastedVerifierList")
 		}
 		checkVerifierListFresh(c, s, "R-C04-1")
+	}
+	checkRegisteredClaimNames(c, "R-C04-3")
+}
+
+// checkRegisteredClaimNames: the claim structures of the daemon carry the registered claims under their
+// registered names. The comparisons R-C04-3 / R-C04-4 look at Go fields; a field decoded from a misspelt key
+// stays zero for every token that was not written through the same misspelling (a token of an older version, a
+// token minted by hand with the shared key), and a zero not-before or expiry passes the comparison.
+func checkRegisteredClaimNames(c *km.Ctx, rule string) {
+	pk := c.P.Pkg("cmd/keymasterd")
+	if pk == nil {
+		return
+	}
+	want := map[string]string{"Issuer": "iss", "Subject": "sub", "Audience": "aud", "Expiration": "exp", "NotBefore": "nbf", "IssuedAt": "iat"}
+	registered := map[string]bool{}
+	for _, k := range want {
+		registered[k] = true
+	}
+	var names []string
+	for n := range pk.Members {
+		names = append(names, n)
+	}
+	sort.Strings(names)
+	n := 0
+	for _, name := range names {
+		tm, ok := pk.Members[name].(*ssa.Type)
+		if !ok {
+			continue
+		}
+		st := structOf(tm.Type())
+		if st == nil {
+			continue
+		}
+		nReg, nNamed := 0, 0
+		for i := 0; i < st.NumFields(); i++ {
+			if registered[jsonKeyOfField(st, i)] {
+				nReg++
+			}
+			if _, is := want[km.RecordedField(tm.Type(), st.Field(i).Name())]; is {
+				nNamed++
+			}
+		}
+		if nReg < 3 && nNamed < 3 {
+			continue // not a claim set
+		}
+		var bad []string
+		for i := 0; i < st.NumFields(); i++ {
+			fn := km.RecordedField(tm.Type(), st.Field(i).Name())
+			if w, is := want[fn]; is && jsonKeyOfField(st, i) != w {
+				bad = append(bad, fn+" is read from \""+jsonKeyOfField(st, i)+"\" (registered name \""+w+"\")")
+			}
+		}
+		n++
+		c.R.Add(rule, "cmd/keymasterd."+km.NamedTypeOf(tm.Type())[strings.LastIndex(km.NamedTypeOf(tm.Type()), ".")+1:], "claim names of "+name, c.P.Pos(tm.Pos()), "iss / sub / aud / exp / nbf / iat carry the registered names", strings.Join(bad, "; "), len(bad) == 0)
+	}
+	if n == 0 {
+		c.R.AnchorLost(rule, "claim structures of cmd/keymasterd")
 	}
 }
 
@@ -1141,4 +1218,24 @@ func checkNoSideEffectOnRefusal(c *km.Ctx, s *km.Sem) {
 	if n == 0 {
 		r.AnchorLost("R-C04-2", "cookie write in updateAuthCookieAuthlevel")
 	}
+}
+
+// isZeroValue: v is a constant zero (false, 0, "", nil) - or an untouched zero cell of a named result.
+func isZeroValue(v ssa.Value) bool {
+	cst, ok := km.Unwrap(v).(*ssa.Const)
+	if !ok {
+		return false
+	}
+	if cst.Value == nil {
+		return true
+	}
+	switch cst.Value.Kind() {
+	case constant.Bool:
+		return !constant.BoolVal(cst.Value)
+	case constant.String:
+		return constant.StringVal(cst.Value) == ""
+	case constant.Int, constant.Float:
+		return constant.Sign(cst.Value) == 0
+	}
+	return false
 }
